@@ -523,6 +523,21 @@ def rule_overlap(chk: Check, view: AsyncView, rid: str):
     d = popped(r, "q_sample")
     chk.add(rid, "next ts_end_prev", T.subst(ep.args[0], sim) == T.add(start, d), "the next step's ts_end_prev must be this step's ts_start + sampled delay", chk.loc(fi, ep.node))
     _sampler(chk, rid, r, fi, "node")
+    # the step time the non-blocking selectors work with is the step's actual (recorded) start, not its nominal schedule: a message that
+    # arrives between the two must still be taken by this step
+    nxt = [e for e in queue_ops(r, "q_ts_next_step", "append")]
+    chk.floor("C03.tie", "next-step announcements to non-blocking inputs", len(nxt), 1)
+    for e in nxt:
+        ok = e.args and e.args[0] == ("tuple", (ap.args[0][1][0], start)) and flow.implies(e.guard, T.mk_not(_blocking_of(e)))
+        chk.add("C03.tie", "non-blocking selector is given the step's actual start time", bool(ok), f"q_ts_next_step gets {T.show(e.args[0])[:160] if e.args else None}, expected (tick, ts_start) as queued "
+                "in q_ts_start, on the non-blocking inputs", chk.loc(fi, e.node))
+
+
+def _blocking_of(e):
+    """<input>.connection.blocking for the input whose queue the event writes"""
+    q = e.recv
+    base = q[1] if q[0] == "attr" else S(q[1].rsplit(".", 1)[0]) if q[0] == "sym" else q
+    return T.mk_attr(T.mk_attr(base, "connection"), "blocking")
 
 
 def run(chk: Check, model):
